@@ -15,6 +15,8 @@ import YadismModel.Model.Cache
 import YadismModel.Model.KExpr
 import YadismModel.Generated.Kernels
 import YadismModel.Model.Norm
+import YadismModel.Model.Dispatch
+import YadismModel.Generated.Dispatch
 
 open Yadism Yadism.Proto
 
@@ -401,6 +403,17 @@ def handle (op : String) : RdM String := do
       let mn ← rat; let m2w ← rat; let gf ← rat; let pi ← rat
       let (a, b, c) := xsCoeffs kind y x q2 { projectilePID := pid, mn, m2w, gf, pi }
       pure s!"{showRat a} {showRat b} {showRat c}"
+  | "dispatch" => do  -- dispatch kind flavor isCC nf zmc zmb zmt ffn0 parts pto ptoEvol tmc
+      let kind ← rdKind; let fl ← rdFlavor; let cc ← bool; let nf ← nat
+      let zmc ← bool; let zmb ← bool; let zmt ← bool; let ffn0 ← bool; let pa ← rdParts
+      let pto ← nat; let pe ← nat; let tmc ← nat
+      let c : CC := { th := { mz2 := 1, mw2 := 1, s2w := 1/4, ckm := default },
+                      ob := { process := if cc then .CC else .NC, projectile := 11, pol := 0, propCorr := 0, posCharge := none } }
+      let e : Env := { kind, cc := c, q2 := 10, nf, zmc, zmb, zmt, ffn0, pto, ptoEvol := pe, z := 1, a := 1 }
+      match tmcOutcome Yadism.Gen.moduleTable Yadism.Gen.tmcKinds tmc e fl pa with
+      | .ok => pure "ok"
+      | .rejected w => pure ("rejected:" ++ w.replace " " "_")
+      | .internal w => pure ("internal:" ++ w.replace " " "_")
   | "distok" => do   -- distok tau sing loc
       let tau ← rat; let sn ← tok; let ln ← tok
       let find (n : String) := (Yadism.Gen.kernelTable.find? (fun e => e.1 == n)).map (·.2)
